@@ -90,9 +90,13 @@ func runProp(spec *PropSpec, tier, mutant string, noMut bool) (code int) {
 		if mutant != "" {
 			// child mode: print failing keys as JSON and exit
 			var keys []string
+			known := map[string]bool{}
+			for _, kf := range loadKnown().Findings {
+				known[kf.Key] = true
+			}
 			for _, o := range c.Obls {
-				if !o.OK {
-					keys = append(keys, o.Key)
+				if !o.OK && !known[o.Key] {
+					keys = append(keys, o.Key) // recorded findings are not news on a mutant either
 				}
 			}
 			if runErr != nil {
